@@ -33,6 +33,7 @@ def check(run):
     run.attempt(encfallback, run, p)
     run.attempt(globs, run, p)
     run.attempt(specifics, run, p)
+    run.attempt(mkdirsafe, run, p)
     from .c04 import split
     run.attempt(split, run, p, p.cls('FilesComparison'))
     run.rules['C11-SPLIT'] = run.rules.pop('C04-SPLIT') + (' (the generated stdout/stderr tests compare the captured output, a raw string that '
@@ -844,6 +845,37 @@ def specifics(run, p):
         run.ob('C11-SPECIFICS', 'shell-var=%s::tmpdir_used' % shell_var, bool(used) == (shell_var is not None),
                'tmpdir_used is %s after a file that mentions the temporary directory (shell variable %s)' % (used, shell_var), fn=f)
     run.floor('C11-SPECIFICS', n, 70)
+
+
+def mkdirsafe(run, p):
+    from ..flow import GuardMap
+    from .common import guard_requires
+    run.rule('C11-MKDIRSAFE', 'generating again over what an earlier (finished, refused or interrupted) generation left behind works: every '
+                              'os.mkdir / os.makedirs in the generator is under a test that the same path does not exist yet (or says '
+                              'exist_ok=True) - a leftover directory otherwise ends the run with FileExistsError before the command is run')
+    n = 0
+    for f in p.funcs.values():
+        if f.mod.name != 'tdda.referencetest.gentest':
+            continue
+        gm = None
+        for x in p.own_nodes(f):
+            if not (isinstance(x, ast.Call) and norm(x.func) in ('os.mkdir', 'os.makedirs') and x.args):
+                continue
+            n += 1
+            path = norm(x.args[0])
+            ok = any(k.arg == 'exist_ok' and isinstance(k.value, ast.Constant) and k.value.value is True for k in x.keywords)
+            if not ok:
+                gm = gm or GuardMap(f.node)
+                for g in gm.chain(x) or ():
+                    if g.kind != 'if':
+                        continue
+                    # `if not os.path.exists(P)` taken, or the else arm of `if os.path.exists(P)` / `os.path.isdir(P)`
+                    if guard_requires(g.test, g.pol, lambda e, pol: (not pol) and isinstance(e, ast.Call) and norm(e.func) in ('os.path.exists', 'os.path.isdir', 'os.path.lexists')
+                                      and e.args and norm(e.args[0]) == path):
+                        ok = True
+            run.ob('C11-MKDIRSAFE', '%s::%s::%s' % (f.rel, f.short, norm(x)[:40]), ok,
+                   '%s %s' % (norm(x)[:50], 'only when the path does not exist yet' if ok else 'whether or not the path exists already'), fn=f, node=x)
+    run.floor('C11-MKDIRSAFE', n, 2)
 
 
 def globs(run, p):
